@@ -112,8 +112,8 @@ def run(ctx):
     rnd.shuffle(other)
     rnd.shuffle(doubles)
     sel += other[:ctx.pick(60, len(other))]
-    sel += doubles[:ctx.pick(120, 5000)]
-    nrandom = ctx.pick(280, 10000)
+    sel += doubles[:ctx.pick(120, 4000)]
+    nrandom = ctx.pick(280, 6000)
     cases = [dict(c) for c in sel]
     for k in range(nrandom):
         cases.append({"mux": "random", "frames": [], "exp": [], "maychange": False, "random": RANDOM_KINDS[k % len(RANDOM_KINDS)]})
